@@ -217,6 +217,7 @@ impl<T: ?Sized + Trace> Clone for Cc<T> {
         }
 
         if self.counter_marker().increment_counter().is_err() {
+            #[cfg(kani)] if crate::verif::limit_panic() { return Cc { inner: self.inner, _phantom: PhantomData }; } // verification hook (H5): emulated unwinding out of the crate's own limit panic, /verif/DESIGN.md 10.7 (poisoned value, forgotten by the harness; live locals are dropped by this return exactly as by the unwind)
             panic!("Too many references has been created to a single Cc");
         }
 
